@@ -11,6 +11,10 @@ Scenarios (harness/src/bin/fault.rs SCENARIOS): objsvc call listener channel syn
 twotasks calldrop calldrop14 -- the last two drop the PendingReply of unanswered calls at seeded points
 before / after the stop was requested (Selected::AbortFunctionCall in the main loop and while draining).
 A `run` that spins inside one poll is caught by the spin guard of the victim's transport (`hang:`).
+Kinds: err eof (fault at operation k and later) | shutdown lastdrop broker connclose conndrop (clean cause applied
+when operation k completed) | <clean>+err <clean>+eof (the clean cause, then a fault at operation k COUNTED FROM THE
+MOMENT THE CAUSE WAS APPLIED, every index up to the end of the shutdown handshake: a fault that fires must be the
+result of run() whatever clean cause was under way).
 The monitor evaluates the property statement on the Rust run alone; the correspondence feeds the
 observed transport results to the extracted automaton and compares result and waiter outcomes.
 """
@@ -138,7 +142,12 @@ def correspondence(o, schedules, shards, nscen, seed):
                 "seed) to executor quiescence, judged by the monitor (no panic, every task finished, no task spinning "
                 "inside one poll, result class, late operations refused, peer served, broker idle), and replayed through "
                 "the extracted automaton with equal result class and equal outcome for every labelled waiter (value / "
-                "shutdown / dropped by the application). Scenarios: objsvc, call, listener, channel, sync, mixed, lifetime, "
+                "shutdown / dropped by the application). Kinds: err, eof at every transport operation index k; the "
+                "clean causes shutdown, lastdrop, broker, connclose, conndrop at k <= 6 and every even k; the combined "
+                "kinds <clean>+err, <clean>+eof = the clean cause (at the first quiescence for half of the seeds, at a "
+                "seed-drawn operation index otherwise) followed by a fault at every operation index counted from the "
+                "moment the cause was applied (transport_ops_after_clean_cause = measured length of that phase) -- a "
+                "fault that fired must be run()'s result (never Ok), an unfired one leaves the clean result. Scenarios: objsvc, call, listener, channel, sync, mixed, lifetime, "
                 "mixed14, twotasks, calldrop, calldrop14 (reply futures of unanswered calls dropped at seeded points before "
                 "and after the stop was requested; reply_drops counts where they fell). distinct_nontrivial = distinct "
                 "(scenario, kind, k, observed summary) with at least 4 completed transport operations (the handshake "
@@ -146,7 +155,7 @@ def correspondence(o, schedules, shards, nscen, seed):
         "samples": st.get("samples", []),
         "input_distribution": {k: st.get(k) for k in ("cases", "case_kinds", "scenarios", "result_classes", "fault_fired",
                                                       "transport_ops_per_scenario", "ops", "labelled_waiters", "polls",
-                                                      "reply_drops")},
+                                                      "reply_drops", "transport_ops_after_clean_cause")},
         "monitor_failures": len(mon),
         "monitor_failures_by_kind": per_kind,
         "disagreements": ndiff,
